@@ -337,6 +337,14 @@ func ruleClone(c *Ctx) {
 			if mk, isFresh := sp.Env.makes[a]; isFresh && mk[0].Eq(affAtom("len("+src+")")) && sp.Env.copies[a] == src {
 				continue
 			}
+			// append(BASE[:0], src...): the source's content and length in BASE's storage (or a larger fresh one), whatever
+			// BASE's capacity; shares nothing with the source unless BASE does
+			if an := reCallNum.ReplaceAllString(a, ""); strings.HasPrefix(an, "append(") && strings.HasSuffix(an, "[:0],"+src+")") {
+				b0 := strings.TrimSuffix(strings.TrimPrefix(an, "append("), "[:0],"+src+")")
+				if b0 == "P:dst."+fld || (strings.HasPrefix(b0, "make(") && !strings.Contains(strings.TrimSuffix(b0, "len("+src+"))"), "R.")) {
+					continue
+				}
+			}
 			if !okShape || !(fresh || own) || alias {
 				msg := fmt.Sprintf("the clone's %s is %s: it must be freshly allocated (or the destination's own storage) resliced to the source length — anything derived from the source shares its backing array", fld, a)
 				if !bad[msg] {
